@@ -181,10 +181,21 @@ def data_file(g, meta, pkgname):
     user_inputs = [i for i in meta["inputs"] if not i["synthetic"]]
     multi = len(user_inputs) > 1
     cases = []
+    canc = bool(g.get("opts", {}).get("cancellable"))
     for k, (nt, noeoi) in enumerate(g["inputs"]):
         fn = "Parse" + (meta["sym_ids"][symid[nt]] if multi else "")
-        cases.append("\tcase %d:\n\t\treturn p.%s(l)" % (k, fn))
-    L.append("func verifParse(p *Parser, l *Lexer, input int) error {\n\tswitch input {\n%s\n\t}\n\tpanic(\"bad input index\")\n}" % "\n".join(cases))
+        cases.append("\tcase %d:\n\t\treturn p.%s(%sl)" % (k, fn, "ctx, " if canc else ""))
+    if canc:
+        # cancellable parsers take a context: one that is never cancelled (cancellation itself is C29)
+        L[0] = "package " + pkgname + "\n\nimport (\n\t\"context\"\n\t\"time\"\n)"
+        L.append("type verifBgCtx struct{ open chan struct{} }\n"
+                 "func (v *verifBgCtx) Deadline() (time.Time, bool) { return time.Time{}, false }\n"
+                 "func (v *verifBgCtx) Value(key any) any           { return nil }\n"
+                 "func (v *verifBgCtx) Done() <-chan struct{}       { return v.open }\n"
+                 "func (v *verifBgCtx) Err() error                  { return nil }\n"
+                 "var _ context.Context = (*verifBgCtx)(nil)")
+    L.append("func verifParse(p *Parser, l *Lexer, input int) error {\n%s\tswitch input {\n%s\n\t}\n\tpanic(\"bad input index\")\n}" % (
+        "\tctx := &verifBgCtx{open: make(chan struct{})}\n" if canc else "", "\n".join(cases)))
     L.append("func verifInit(p *Parser) {\n\tverifEvents = nil\n\tp.Init(func(t NodeType, s, e int) { verifListen(int(t), s, e) })\n}")
     return "\n".join(L) + "\n"
 
@@ -268,6 +279,10 @@ EXTLA = [
 ]
 
 
+# the cancellable variant of the generated decision code is a separate template branch: same grammar as z02
+EXTLA.append(dict(EXTLA[1], name="z04", opts={"cancellable": True}))
+
+
 def AL(name, e):
     return ("alias", name, auto(e))
 
@@ -326,6 +341,13 @@ EXTACT_RAW = [
     # two optionals and an action between them
     EG("v06", "abcd", ["Sx"], [("Sx", [(S(O(AL("h", "a")), AL("m", "b"), ACT(1, "h.offset", "h", "m.offset"), O(S(AL("t1", "c"), O(AL("t2", "d")))), AL("z", "b"),
                                           ACT(2, "h.endoffset", "t1.offset", "t2.offset", "t2", "m.endoffset", "z.offset", "last().offset")), "R")])], typed_terms=True),
+]
+
+EXTACT_RAW += [
+    # a state marker in front of referenced symbols (markers occupy no stack slot)
+    EG("v07", "abc", ["Sx"], [("Sx", [(S(AL("x", "a"), ("marker", "mk"), AL("y", "b"), AL("z", "c"), ACT(1, "x.offset", "y", "y.offset", "y.endoffset", "z", "z.endoffset", "last().offset")), "R")])], typed_terms=True),
+    # a mid-rule action after an optional unnamed list: the two expansions need different stack offsets for the same names
+    EG("v08", "abcd", ["Sx"], [("Sx", [(S(AL("p", "d"), AL("q", "b"), O(L(T("a"), True)), ACT(1, "q", "q.offset", "p", "p.endoffset"), AL("z", "c"), ACT(2, "z.offset", "q.endoffset", "p.offset")), "R")])], typed_terms=True),
 ]
 
 EXTACT = [typed(g) for g in EXTACT_RAW]
